@@ -35,6 +35,32 @@ theorem chosen_is_minimal (cs : List Client) (i : Nat) (h : Fh.Model.LB.get cs =
   subst h1; subst h2
   exact this
 
+/-- In the model `get` (and each of AddClient / RemoveClients) is ONE atomic step.  Pinned to the source by facts
+    regenerated from lbclient.go on every run: `get` takes `cc.mu.RLock()` directly followed by the deferred `RUnlock`
+    and contains no other unlock call — the lock is held from reading `cc.cs` to the end of the scan — and the two
+    membership operations hold the write lock in the same way.  Hence a call that overlaps a membership change is
+    ordered entirely before or entirely after it. -/
+theorem get_is_one_atomic_step :
+    Gen.lbLocking = [("get", "RLock", true, 0), ("AddClient", "Lock", true, 0), ("RemoveClients", "Lock", true, 0)] := by
+  decide
+
+/-- the client a call is routed to is the first least-loaded client among the members at that (atomic) moment -/
+theorem routed_client_is_minimal_member (s : State) (i : Nat) (h : (route s).2 = .routed i) :
+    ∃ ci, (route s).1.cs[i]? = some ci ∧ ∀ j cj, (route s).1.cs[j]? = some cj →
+      (ci.load < cj.load ∨ (ci.load = cj.load ∧ ci.total ≤ cj.total)) ∧
+      (j < i → (ci.load < cj.load ∨ (ci.load = cj.load ∧ ci.total < cj.total))) := by
+  unfold route at h ⊢
+  cases hi : ensureInit s with
+  | none => simp [hi] at h
+  | some s' =>
+    simp only [hi] at h ⊢
+    cases hg : Fh.Model.LB.get s'.cs with
+    | none => simp [hg] at h
+    | some k =>
+      simp only [hg] at h ⊢
+      cases h
+      exact chosen_is_minimal s'.cs i hg
+
 /-- `get` answers exactly when there is a client -/
 theorem get_some_iff (cs : List Client) : (∃ i, Fh.Model.LB.get cs = some i) ↔ cs ≠ [] := by
   cases cs <;> simp [Fh.Model.LB.get]
